@@ -293,4 +293,120 @@ theorem addNodes_complete (cfg : Cfg) (roots nodes : List Node) (j : Nat) (st : 
     have : d ≤ j := h2 (by simpa using hnn)
     exact union_complete hj1 hB hC n (hr.mono this)
 
+/-! ### edges: nothing invented, nothing lost, one arrow per relation (round 6) -/
+
+/-- the edges drawn so far all come from `add_node` of some node -/
+def EdgesFrom (cfg : Cfg) (st : GState) : Prop := ∀ e ∈ st.edges, ∃ n c, (c, e) ∈ cfg.succ n
+
+theorem edgesFrom_step {cfg : Cfg} {nodes : List Node} {st : GState} (h : EdgesFrom cfg st) :
+    EdgesFrom cfg { st with added := union st.added (hopOf cfg st.added nodes),
+                            edges := st.edges ++ hopEdgesOf cfg nodes } := by
+  intro e he
+  simp only [List.mem_append] at he
+  rcases he with he | he
+  · exact h e he
+  · obtain ⟨n, _, c, hc⟩ := mem_hopEdges.1 he; exact ⟨n, c, hc⟩
+
+/-- **No edge is invented**: `add_to_graph` only ever writes edges that `add_node` produced. -/
+theorem addNodes_edges_sound (cfg : Cfg) (nodes : List Node) (nesting : Nat) (st : GState)
+    (h : EdgesFrom cfg st) : EdgesFrom cfg (addNodes cfg nodes nesting st) := by
+  fun_induction addNodes cfg nodes nesting st
+  case case1 => exact h
+  case case2 => exact edgesFrom_step h
+  case case3 ih => exact ih (edgesFrom_step h)
+  case case4 => exact edgesFrom_step h
+  case case5 => exact edgesFrom_step h
+
+/-- one accepted hop: every node that was drawn before the hop has all its edges afterwards -/
+theorem edges_step {cfg : Cfg} {nodes : List Node} {st : GState}
+    (hE : ∀ m ∈ st.added, m ∉ nodes → ∀ c e, (c, e) ∈ cfg.succ m → e ∈ st.edges)
+    {m : Node} (hm : m ∈ st.added) {c : Node} {e : Edge} (he : (c, e) ∈ cfg.succ m) :
+    e ∈ st.edges ++ hopEdgesOf cfg nodes := by
+  by_cases hmn : m ∈ nodes
+  · exact List.mem_append.2 (Or.inr (mem_hopEdges.2 ⟨m, hmn, c, he⟩))
+  · exact List.mem_append.2 (Or.inl (hE m hm hmn c e he))
+
+/-- **No edge is lost**: unless `add_to_graph` refused a hop, every edge `add_node` produces for a
+    node closer to the roots than the depth bound is in the graph — *every* one: when two relations
+    join the same ordered pair of nodes, `add_node` produces two edges and both are written. -/
+theorem addNodes_edges_complete (cfg : Cfg) (roots nodes : List Node) (j : Nat) (st : GState)
+    (hj1 : 1 ≤ j)
+    (hB : ∀ n, ReachLe (succN cfg.succ) roots (j - 1) n → n ∈ st.added)
+    (hC : ∀ m ∈ st.added, m ∉ nodes → ∀ c ∈ succN cfg.succ m, c ∈ st.added)
+    (hE : ∀ m ∈ st.added, m ∉ nodes → ∀ c e, (c, e) ∈ cfg.succ m → e ∈ st.edges)
+    (hcut : (addNodes cfg nodes j st).cutBySize = false) :
+    ∀ d n, (cfg.nested = true → d + 1 ≤ max j cfg.maxNesting) → (cfg.nested = false → d + 1 ≤ j) →
+      ReachLe (succN cfg.succ) roots d n →
+      ∀ c e, (c, e) ∈ cfg.succ n → e ∈ (addNodes cfg nodes j st).edges := by
+  fun_induction addNodes cfg nodes j st
+  case case1 => simp at hcut
+  case case2 nodes j st hop hle st' hnest hemp =>
+    intro d n _ _ ⟨k, _, hr⟩ c e he
+    have hempty : hopOf cfg st.added nodes = [] := by simpa using hemp
+    have hn : n ∈ union st.added (hopOf cfg st.added nodes) := by
+      refine closed_contains_reach (s := succN cfg.succ) (roots := roots) ?_ ?_ k n hr
+      · intro r hr'
+        exact mem_union.2 (Or.inl (hB r ⟨0, by omega, .root hr'⟩))
+      · intro m hm c hc
+        exact union_frontier hC m hm (by rw [hempty]; simp) c hc
+    have hnA : n ∈ st.added := by
+      rcases mem_union.1 hn with h | h
+      · exact h
+      · rw [hempty] at h; simp at h
+    exact edges_step hE hnA he
+  case case3 nodes j st hop hle st' hnest hemp hlt ih =>
+    intro d n h1 h2 hr c e he
+    refine ih (by omega) ?_ ?_ ?_ hcut d n ?_ ?_ hr c e he
+    · intro n hn
+      have e : j + 1 - 1 = j := by omega
+      rw [e] at hn
+      exact union_complete hj1 hB hC n hn
+    · exact union_frontier hC
+    · intro m hm hmh c e he
+      have hmA : m ∈ st.added := by
+        rcases mem_union.1 hm with h | h
+        · exact h
+        · exact absurd h hmh
+      exact edges_step hE hmA he
+    · intro hn; have := h1 hn; omega
+    · intro hn; simp [hnest] at hn
+  case case4 nodes j st hop hle st' hnest hemp hge =>
+    intro d n h1 _ hr c e he
+    have hd : d ≤ j - 1 := by have := h1 hnest; omega
+    exact edges_step hE (hB n (hr.mono hd)) he
+  case case5 nodes j st hop hle st' hnn =>
+    intro d n _ h2 hr c e he
+    have hd : d ≤ j - 1 := by have := h2 (by simpa using hnn); omega
+    exact edges_step hE (hB n (hr.mono hd)) he
+
+/-! ### the table fall-back: rows and the cell of the root (round 6) -/
+
+theorem dedup_of_nodup {l : List Node} (h : l.Nodup) : dedup l = l := by
+  induction l with
+  | nil => simp [dedup]
+  | cons a r ih =>
+    rw [List.nodup_cons] at h
+    simp [dedup, h.1, ih h.2]
+
+/-- a hop in which every candidate is new and occurs once has as many nodes as edges -/
+theorem hop_lengths_eq {cfg : Cfg} {added nodes : List Node}
+    (hd : ((cands cfg.succ nodes).map Prod.fst).Nodup)
+    (hn : ∀ c ∈ (cands cfg.succ nodes).map Prod.fst, c ∉ added) :
+    (hopOf cfg added nodes).length = (hopEdgesOf cfg nodes).length := by
+  have hf : ((cands cfg.succ nodes).map Prod.fst).filter (fun c => !cfg.filterAdded || !added.contains c)
+      = (cands cfg.succ nodes).map Prod.fst := by
+    apply List.filter_eq_self.2
+    intro c hc
+    have := hn c hc
+    simp [this]
+  simp only [hopOf, hopEdgesOf, hf, dedup_of_nodup hd, List.length_map]
+
+/-- ... and never more nodes than edges -/
+theorem hop_length_le {cfg : Cfg} {added nodes : List Node} :
+    (hopOf cfg added nodes).length ≤ (hopEdgesOf cfg nodes).length := by
+  simp only [hopOf, hopEdgesOf, List.length_map]
+  refine Nat.le_trans (length_dedup_le _) ?_
+  refine Nat.le_trans (List.length_filter_le _ _) ?_
+  simp
+
 end Ford.Graph
